@@ -58,7 +58,7 @@ Inductive value :=
 | VScalar (k : kind) (txt : bytes)          (* Kind() in Bool..Uint64; txt = oracle: its JSON text *)
 | VAny (isnil : bool) (t : tree)            (* KindAny; isnil <-> Value.Any() == nil (the zero Value); t = oracle: what zap.Any encodes *)
 | VGroup (l : list (bytes * value))         (* KindGroup: Value.Group() *)
-| VLogValuer (v : value).                   (* KindLogValuer; v = what LogValue() returns *)
+| VLogValuer (v : value).                   (* KindLogValuer; v = what LogValue() returns WHEN THIS USE resolves it *)
 Definition attr := (bytes * value)%type.
 
 (* ------------------------------------------------------------------ *)
@@ -426,7 +426,12 @@ Definition no_level_change (p : list cmd) : bool :=
           | (3 mask)                                   the core's enabler becomes [mask]
           | (4 handler level #msg (attr ...))          through slog.Logger
    attr   = (#key value)
-   value  = (0 kind #txt) | (1 isnil tree) | (2 (attr ...)) | (3 value)
+   value  = (0 kind #txt) | (1 isnil tree) | (2 (attr ...)) | (3 value [id k])
+            (3 v id k): LogValuer number id of the program, whose LogValue() answers differently at
+            each call; v = what its k-th call returns.  A LogValuer is a function of the resolution
+            count: every conversion resolves afresh, so the attrs of each command carry the values
+            of the resolutions made during THAT command (the same caller-owned attribute used in
+            several commands appears with k increasing); id and k are not read by the model
    tree   = #leaftext | ((#key tree) ...)
    mask   : bit (l+1) set <-> the core enables zap level l  (l in -1..2)
    observation = (out ...) one per Handle / Log, out = (enabled 1 zaplevel #msg #logger tree) | (enabled 0) *)
